@@ -159,7 +159,7 @@ def check_case(rec, case):
         rec.note_case(case, case['cls'], 0 < len(L) < len(words))
         size = len(R[0]) + len(R[2])
         if kind == 'dfa':
-            D = adapt.build_dfa(R)
+            D = adapt.build_dfa(R, scramble=case.get('scr'))
             for w in words:
                 o = sim(rec, da.dfa_simulate_word, 'dfa_simulate_word', D, w, size, 0)
                 if o is None:
@@ -170,7 +170,7 @@ def check_case(rec, case):
                         rec.violation('dfa_simulate_word:not_a_run', 'the DFA trace for an accepted word is not a genuine accepting run: ' + why, word=w, rows=o.value[:6])
                         break
         else:
-            N = adapt.build_nfa(R, case.get('eps', ''), case.get('container', 'defaultdict_set'))
+            N = adapt.build_nfa(R, case.get('eps', ''), case.get('container', 'defaultdict_set'), scramble=case.get('scr'))
             for w in words:
                 o = sim(rec, na.nfa_simulate_word, 'nfa_simulate_word', N, w, size, 0)
                 if o is None:
@@ -187,7 +187,7 @@ def check_case(rec, case):
         words = list(fa.words_upto(R[1], n))
         exact = {w for w in words if pd.accepts(R, w)}
         rec.note_case(case, case['cls'], 0 < len(exact) < len(words))
-        P = adapt.build_pda(R, case.get('eps', ''))
+        P = adapt.build_pda(R, case.get('eps', ''), scramble=case.get('scr'))
         size = len(R[0]) + len(R[3])
         old = GambaTools.pda_epsilon_closure_max_iterations
         try:
@@ -329,7 +329,7 @@ def run(rec, rng, tier):
             check_case(rec, rc)
             return
         for case in gen_cases(rec, rng, tier):
-            check_case(rec, case)
+            check_case(rec, common.with_scramble(case))
     finally:
         if _LM is not None:
             rec.extra['anchored_line_coverage'] = _LM.coverage_report()
